@@ -30,7 +30,7 @@ EXPLANATION = (
     "by construction at each of its definitions (constant <= 1, a ratio x/y under the guard x < y, min(x, y)/y, or a percentage of the "
     "state / 100 whose every writer keeps it <= 100) - so the gain is scaled down by no more than the crop's productivity factor. T-COLS: writer lists, column-name "
     "lists and array widths agree; state columns carry the field of the same name, flux columns the designated "
-    "return of the designated process. NOT decided: numeric equality of sums (follows from the identities by exact "
+    "return of the designated process. C06.c also: both seasonal counters are cleared on every path of the season reset; on the net-irrigation valuation no constant store to the net counter in transpiration is reachable. NOT decided: numeric equality of sums (follows from the identities by exact "
     "arithmetic only).")
 
 IN_SEASON = {"growing_season is True": True, "growing_season is False": False}
